@@ -2,7 +2,6 @@ package aead
 
 import (
 	"crypto/cipher"
-	"fmt"
 	"math/rand/v2"
 
 	"golang.org/x/crypto/chacha20poly1305"
@@ -74,10 +73,10 @@ func newAEAD(kind int, key []byte) cipher.AEAD {
 // the trailing PROT_NONE page (align 0) or starting right after the leading one
 // (align 1). prefix and spare hold canaries.
 type dstBuf struct {
-	region  []byte
-	p, win  int
-	prefix  []byte // expected prefix content
-	spare   []byte // expected spare content
+	region   []byte
+	p, win   int
+	prefix   []byte // expected prefix content
+	spare    []byte // expected spare content
 	sentinel byte
 }
 
@@ -190,5 +189,3 @@ func adClass(n int) string {
 	}
 	return "k16+r"
 }
-
-func fmtKey(format string, a ...any) string { return fmt.Sprintf(format, a...) }
